@@ -123,6 +123,7 @@ class Interp(object):
         self.inline_depth = 0
         self.fn_stack = []
         self.loop_counters = {}
+        self.comp_index_stack = []
         self.pure_since = None
         self.hoist = None
         self.writes = []           # log of heap writes: (obj, what)
@@ -1133,6 +1134,14 @@ class Interp(object):
     def comp_rec(self, node, gens, gi, env, out):
         g = gens[gi]
         it = self.eval(g.iter, env)
+        if isinstance(it, NDArr) and it.ndim == 1 and not isinstance(it.shape[0], int):
+            # a 1-d array of symbolic length is iterated element by element
+            arr_ = it
+            fn_ = arr_.fn
+            snap = NDArr(list(arr_.shape), arr_.dtype, fn_)
+            it = stamp(SymSeq('list', self.mk(self.np.dim_z(arr_.shape[0]), 'int'),
+                              lambda I_, k_, snap=snap: I_.np.elem_sv(snap, k_)))
+            it.no_raise = True
         if isinstance(it, Opaque) and it.tag == 'gridsel' and gi == 0:
             # [item for sublist in G[mask] for item in sublist]: the members of the selected cells
             ok = (len(gens) == 2 and not g.ifs and not gens[1].ifs and isinstance(g.target, ast.Name)
@@ -1283,7 +1292,12 @@ class Interp(object):
         item = self.seq_get_sym(it, k)
         scope = {'__parent__': env, '__globals__': env.get('__globals__'), '__module__': env.get('__module__')}
         self.assign_target(g.target, item, scope)
-        return self.eval(node.elt, scope)
+        # the index of the element being computed (callables supplied by a contract key their results on it)
+        self.comp_index_stack.append(k)
+        try:
+            return self.eval(node.elt, scope)
+        finally:
+            self.comp_index_stack.pop()
 
     def sub_explore(self, thunk, assumptions):
         """Explore every path of thunk() under the current path condition plus assumptions, without
@@ -1323,6 +1337,10 @@ class Interp(object):
         for r in results:
             r.pc_suffix = r.pc[base_len[0]:]
             outer.axioms_used |= r.axioms_used
+            # symbols created inside the sub-exploration may occur in its results: never hand the same names out again
+            for b_, n_ in getattr(r, 'names', {}).items():
+                if n_ > outer.names.get(b_, 0):
+                    outer.names[b_] = n_
         return [r for r in results if r.outcome != 'abort']
 
     def prove_forked(self, name, thunk, kind='ensures'):
